@@ -280,6 +280,9 @@ func runCase(i int, c lkCase) map[string]any {
 				if rnd.Intn(2) == 0 {
 					ops = append(ops, op{it.K, kd, "c2"}) // two children are still ONE entry of kind PREFIX
 				}
+				if rnd.Intn(2) == 0 {
+					ops = append(ops, op{it.K, kd, "cx"}) // a third child that is removed again once everything is stored: the key still holds children
+				}
 			default:
 				ops = append(ops, op{it.K, kd, ""})
 			}
@@ -303,13 +306,20 @@ func runCase(i int, c lkCase) map[string]any {
 			s.simple = err == nil
 		case "PREFIX":
 			err = n.PrefixAppend(ctx, conc(c.Alphabet, o.key), []byte(o.child))
-			if err == nil {
+			if err == nil && o.child != "cx" {
 				s.children = append(s.children, o.child)
 			}
 		case "LEASE":
 			s.token, err = n.Acquire(ctx, conc(c.Alphabet, o.key), time.Hour)
 		}
 		storeLog = append(storeLog, []any{o.key, o.kind, o.child, at, ring.ErrClass(err)})
+	}
+	for _, o := range ops {
+		if o.child == "cx" {
+			at, n := pick()
+			err := n.PrefixRemove(ctx, conc(c.Alphabet, o.key), []byte("cx"))
+			storeLog = append(storeLog, []any{o.key, "UNPREFIX", o.child, at, ring.ErrClass(err)})
+		}
 	}
 	out["store"] = storeLog
 	// where the data went (direct look into every store)
